@@ -216,8 +216,18 @@ func cmdMeta(args []string) error {
 			// the same data partitioned over two and three graphs
 			rel("partition2", "same", b, emitQ(build(bq.proj, bq.cls, parts2, bq.tail), cfgs[r.intn(len(cfgs))]))
 			rel("partition3", "same", b, emitQ(build(bq.proj, bq.cls, parts3, bq.tail), cfgs[r.intn(len(cfgs))]))
+			// a predicate bounded by bindings ("id"@[?lo,?hi]) reads what earlier clauses bound: clause order is part of its meaning
+			boundAlias := false
+			for _, c := range bq.cls {
+				if i := strings.Index(c, "@[?"); i >= 0 && strings.Contains(c[i:], ",") {
+					boundAlias = true
+				}
+				if strings.Contains(c, "@[,?") {
+					boundAlias = true
+				}
+			}
 			if !bq.optional {
-				if len(bq.cls) > 1 {
+				if len(bq.cls) > 1 && !boundAlias {
 					perm := r.perm(len(bq.cls))
 					var cls []string
 					for _, i := range perm {
